@@ -1,0 +1,16 @@
+//go:build verif
+
+package mint
+
+import (
+	"net/http"
+
+	"github.com/elnosh/gonuts/mint/storage"
+)
+
+// VerifWrapDB lets a verification harness interpose on the mint's storage.
+func (m *Mint) VerifWrapDB(f func(storage.MintDB) storage.MintDB) { m.db = f(m.db) }
+
+// VerifHandler returns the http.Handler of the mint server so that a
+// verification harness can drive it in-process without a listener.
+func (ms *MintServer) VerifHandler() http.Handler { return ms.httpServer.Handler }
